@@ -62,7 +62,7 @@ def ref_name(ex, rd):
         if kind == 'bad': raise RefErr('name: reserved label type')
         if kind == 'label':
             left = len(cur.bs) - cur.pos
-            fits = (b.v <= left) if isinstance(b.v, int) else ex.branch(z3.ULE(b.v, left))
+            fits = (b.v <= left) if isinstance(b.v, int) else (True if left >= 255 else ex.branch(z3.ULE(b.v, left)))
             if not fits: raise RefErr('name: short')
             n = ex.concretize(b)
             total += 1 + n
@@ -111,7 +111,7 @@ def ref_rdata(ex, rd, rtype, rdlen):
     if out is None:
         left = len(rd.bs) - rd.pos
         if isinstance(rdlen.v, int): fits = rdlen.v <= left
-        else: fits = ex.branch(z3.ULE(rdlen.v, left))
+        else: fits = True if left >= 65535 else ex.branch(z3.ULE(rdlen.v, left))
         if not fits: raise RefErr('RDATA short')
         out = ('OPAQUE', rd.take(ex.concretize(rdlen)))
     used = rd.pos - s0
